@@ -340,13 +340,13 @@ def run(report):
     items = [("corpus", progs[i::4], switches) for i in range(4)]
     # a seeded stride of the G-NEST interaction programs (all valid on 3.8)
     from ..gen import nest
-    ncases = list(nest.triples()) + list(nest.item_pairs()) + list(nest.deep())
+    ncases = nest.catalogue()
     stride = 97 if quick else 11
     nprogs = []
     for k in range(report.seed % stride, len(ncases), stride):
-        src = nest.build(*ncases[k])
+        src = nest.build_any(ncases[k])
         if src is not None:
-            nprogs.append(("interaction %s > %s" % (" > ".join(ncases[k][0]), " ; ".join(ncases[k][1])), src))
+            nprogs.append(("interaction " + nest.label(ncases[k]), src))
     items += [("corpus", nprogs[i::4], switches) for i in range(4)]
     report.extra["interaction_programs"] = len(nprogs)
     depth_cases = [(k, n) for k in DEPTH_KINDS for n in (DEPTHS_QUICK if quick else DEPTHS_THOROUGH)]
